@@ -55,8 +55,8 @@ impl Default for M {
 }
 
 fn thread_cpu_ns(task_path: &str) -> Option<u64> {
-    let s = std::fs::read_to_string(format!("/proc/{}/schedstat", task_path)).ok()?;
-    s.split_whitespace().next()?.parse().ok()
+    // user-mode CPU time only (see ctx::thread_user_cpu_ns for why not the on-CPU time of schedstat)
+    crate::ctx::thread_user_cpu_ns(task_path)
 }
 
 impl M {
